@@ -148,8 +148,9 @@ impl SyncReadBuf {
                     let _ = inner.reserve_exact(new_capacity - capacity);
                 }
 
+                // Offer the inner read no more room than the limit leaves.
                 let len = inner.buf_len();
-                let read_slice = inner.slice(len..);
+                let read_slice = inner.slice(len..self.max_buffer_size);
                 stream.read(read_slice).await.into_inner()
             })
             .await?;
